@@ -26,7 +26,7 @@ MANIFEST = dict(
     note='The overlap detector (find_best_overlap) is taken from the implementation and only sanity-checked (range, CER<1); alphabet and lengths are bounded.',
     ref='3/C15')
 
-BOUNDS = {'quick': dict(Lmin=5, Lmax=7, pair_len=4, engine_lines=2), 'thorough': dict(Lmin=5, Lmax=9, pair_len=5, engine_lines=3)}
+BOUNDS = {'quick': dict(Lmin=5, Lmax=7, pair_len=4, engine_lines=2, two_len=6), 'thorough': dict(Lmin=5, Lmax=9, pair_len=5, engine_lines=3, two_len=8)}
 BOUNDS['replay'] = BOUNDS['quick']
 
 
@@ -52,6 +52,9 @@ def shards(tier):
             out.append({'kind': 'windows', 'L': L, 'w': w})
     for f in range(len(ENGINE_TEXTS)):
         out.append({'kind': 'engine', 'first': f})
+    for L in range(1, b['two_len'] + 1):
+        for first in 'abc':
+            out.append({'kind': 'two', 'L': L, 'first': first})
     return out
 
 
@@ -189,6 +192,15 @@ def run_shard(shard, ctx, tier):
         for a in P[shard['lo']:shard['hi']]:
             for c in P:
                 guarded_check(mod, {'parts': [a, c]}, ctx)
+    elif shard['kind'] == 'two':
+        # every way of reading one text T as two true windows a = T[:k], b = T[j:] (j <= k), including a second window that only repeats
+        # the end of the first one (k = len(T))
+        L = shard['L']
+        for rest in itertools.product('abc', repeat=L - 1):
+            T = shard['first'] + ''.join(rest)
+            for k in range(1, L + 1):
+                for j in range(0, k):
+                    guarded_check(mod, {'parts': [T[:k], T[j:]], 'two': T}, ctx)
     elif shard['kind'] == 'engine':
         n = len(ENGINE_TEXTS)
         for L in range(1, b['engine_lines'] + 1):
@@ -283,6 +295,21 @@ def check_case(case, ctx):
             o = overlaps[0]
             if not text.startswith(parts[0][:len(parts[0]) - (o + 1) // 2]) or not text.endswith(parts[1][o // 2:]):
                 ctx.violation('begins-with-first-ends-with-last', f'{K}/ends', desc)
+        if 'two' in case:
+            # two noise-free windows of one text whose true overlap is the ONLY exact suffix/prefix match: nothing else can be "the" overlap,
+            # so the merged text is the text
+            a_, b_ = parts
+            exact = [i for i in range(1, min(len(a_), len(b_)) + 1) if a_[-i:] == b_[:i]]
+            true_ov = len(a_) + len(b_) - len(case['two'])
+            if exact == [true_ov]:
+                ctx.tag('unique-exact-overlap')
+                if len(b_) == true_ov:
+                    ctx.tag('second-window-only-repeats-the-overlap')
+                if text != case['two']:
+                    ctx.violation('text-kept', f'{K}/true-windows-with-unique-overlap-not-reproduced',
+                                  f'{desc}: the parts are the windows [:{len(a_)}] and [{len(a_) - true_ov}:] of {case["two"]!r}, whose only exact '
+                                  f'overlap has length {true_ov}')
+                    continue
         if all(o == 0 for o in overlaps) and text != ''.join(parts):
             ctx.violation('no-overlap-means-concatenation', f'{K}/zero-overlap-not-concatenated', desc)
         if 'window' in case and 'noise' not in case and 'text' in case:
@@ -317,6 +344,6 @@ def describe(tier):
                 'Non-trivial: a list whose merges have both a zero and a positive detected overlap.',
         'bounds': BOUNDS[tier], 'alphabets': {'lists': 'ab', 'pairs': 'abc', 'windows': 'ab (+c as noise)'},
         'assumptions': ['the detected overlap is the implementation\'s find_best_overlap (sanity-checked only)'],
-        'min_nontrivial': 20, 'required_tags': ['zero-overlap', 'odd-overlap', 'empty-part', 'noisy-overlap', 'split-lines-merged', 'engine-empty-part',
+        'min_nontrivial': 20, 'required_tags': ['unique-exact-overlap', 'second-window-only-repeats-the-overlap', 'zero-overlap', 'odd-overlap', 'empty-part', 'noisy-overlap', 'split-lines-merged', 'engine-empty-part',
                           'engine-merge-restores-the-text'],
     }
